@@ -34,7 +34,8 @@ CN = 'mystic.constraints'
 
 # success test of each combinator, per success return in source order   [and e is None]
 FIXED = {
-    'and_': ['all((xi == x[-1] for xi in x))', 'all((xi == x[-1] for xi in x[-(n + 1):]))'],
+    # (_same(a, b): a == b, or equal to within floating-point rounding - checked separately below)
+    'and_': ['all((_same(xi, x[-1]) for xi in x))', 'all((_same(xi, x[-1]) for xi in x[-(n + 1):]))'],
     'or_': ['x[-1] == x[0]', 'x[-1] == x[-(n + 1)]'],
     'not_': ['constraint(x[:]) != x'],
 }
@@ -274,3 +275,42 @@ def joined_constraints_go_through_the_combinator_whatever_their_number(ctx):
     """generate_constraint(..., join=and_ / or_) is the documented way to get a fixed-point combination of compiled solvers: every entry - also a single one, also one group of cyclic solvers - is handed to the joiner, so success / failure is still decided by the combinator's own test (a by-pass for "nothing to join" returns a single pass and fires neither onexit nor onfail); reference summary shared with C13.g"""
     from .c13 import constraint_composition_keeps_every_solver
     constraint_composition_keeps_every_solver(ctx)
+
+
+@rule('C17.i', min_instances=1)
+def unchanged_means_equal_up_to_rounding_only(ctx):
+    """and_ compares successive vectors with a helper _same(a, b): it may answer True only for a == b or for vectors that agree to within floating-point rounding (mystic.math.almostEqual with absolute tolerance 0 and a relative tolerance of at most 1e-12) - a member such as impose_sum is not bit-for-bit idempotent (1 ulp), and with exact equality and_ ran to maxiter and took the failure path on points that satisfy every member; a looser test would claim success at points a member still moves visibly"""
+    outer = ctx.func('%s:and_' % CN)
+    helpers = [d for d in ast.walk(outer.node) if isinstance(d, ast.FunctionDef) and d.name == '_same']
+    uses = [c for c in ast.walk(outer.node) if isinstance(c, ast.Call) and isinstance(c.func, ast.Name) and c.func.id == '_same']
+    if not uses:
+        ctx.ok('and_#comparison', 'successive vectors are compared with ==', outer, outer.node)
+        return
+    ctx.need(helpers, 'and_: _same is used but not defined in and_')
+    h = helpers[0]
+    a, b = [x.arg for x in h.args.args][:2]
+    bad = None
+    for r in [x for x in ast.walk(h) if isinstance(x, ast.Return)]:
+        v = r.value
+        if isinstance(v, ast.Constant) and v.value is False:
+            continue
+        if isinstance(v, ast.Constant) and v.value is True:
+            gs = [' '.join(unparse(t_).split()) for t_, tr, _ in guards_of(r) if tr]
+            if ('%s == %s' % (a, b)) in gs or ('%s == %s' % (b, a)) in gs:
+                continue
+            bad = r
+            continue
+        calls = [c for c in ast.walk(v) if isinstance(c, ast.Call) and callee_text(c).split('.')[-1] == 'almostEqual']
+        ok_ = False
+        if calls:
+            kw = dict((k.arg, k.value) for k in calls[0].keywords)
+            tol = kw.get('tol', calls[0].args[2] if len(calls[0].args) > 2 else None)
+            rel = kw.get('rel', calls[0].args[3] if len(calls[0].args) > 3 else None)
+            try:
+                ok_ = tol is not None and rel is not None and float(ast.literal_eval(tol)) == 0.0 and 0.0 <= float(ast.literal_eval(rel)) <= 1e-12
+            except Exception:
+                ok_ = False
+        if not ok_:
+            bad = r
+    ctx.check(bad is None, 'and_._same', 'True only for == or agreement to within rounding (rel <= 1e-12, tol 0)',
+              'and_ takes two vectors for "the same" under %s: a success claimed on that basis can be a point a member still changes by more than rounding' % (unparse(bad.value)[:70] if bad is not None else ''), outer, bad or h)
